@@ -79,7 +79,7 @@ pub fn replay(v: &Value) -> Outcome {
                 match run_deadline(tables.clone(), text.clone(), ro) {
                     Ok(evs) => {
                         let (_, kind) = verdict(&evs);
-                        if kind == "MaxParsingDepthExceeded" {
+                        if kind == "MaxParsingDepthExceeded" || kind == "UserError" {
                             o.mismatch(&format!("runs-away/{name}"), json!("a result"),
                                        json!({"outcome": format!("parser stack beyond {RUNAWAY} entries without consuming input"), "text": text, "rec": rec, "resolved_conflicts": resolved}));
                         }
